@@ -14,7 +14,11 @@ CLAIMS = {
  "C01": ("Coq theorems (Props/C01.v): for every platform record satisfying PlatformOK (any SIMD degree 1..16) and every "
          "input below 2^64 bytes the executable model of hash/keyed_hash/derive_key (compress_subtree_wide recursion, "
          "parent layers, ChunkState, all asserts/indices/overflows explicit) returns Ok(spec value): no panic, exactly the "
-         "specification's first 32 output bytes. The model calls the repository's own constants and left_subtree_len "
+         "specification's first 32 output bytes; the whole all-at-once path of src/lib.rs (compress_chunks_parallel, "
+         "compress_parents_parallel, compress_subtree_wide, compress_subtree_to_parent_node, hash_all_at_once, hash, keyed_hash, "
+         "derive_key) is TRANSLATED statement by statement (gen/GenLibWide.v) and proved equal to the model at every fuel, so the "
+         "translated source text itself computes the specification (C01_lib_src_hash_spec and the keyed / derive variants). "
+         "The model calls the repository's own constants and left_subtree_len "
          "formula (translated each run); model and real crate are run on the length lattice at every forced SIMD level.",
          "SIMD kernels are a platform record here (kernel equality is C05); CV arrays abstracted to lists of 32-byte CVs.",
          "Coq proof by induction over the tree (symbolic trees, compression-parametric) + translated formulas + model/implementation correspondence"),
